@@ -213,22 +213,24 @@ def run_pipeline(ctx, mod, demod, cfg, idx):
     return cfg, res
 
 
-def process_level(ctx, mod, demod):
+def process_level(ctx, mod, demod, only=None):
     r = ctx.rng.fork("c20-pipeline")
     thorough = ctx.tier == "thorough"
     nruns = 300 if thorough else 12
     cfgs = []
     kinds = ["tone", "noise", "silence"]
-    for i in range(nruns):
+    for i in range(nruns if only is None else 0):
         src = rand_call(r, 1 + i % 9) if i % 4 else r.choice(["W1AW", "N0CALL-9", "AB1CDE/.Z", "9"])
         dst = None if i % 3 == 0 else rand_call(r)
         cfgs.append((src, dst, i % 16, (i // 2) % 2 == 1, i % 2 == 1, kinds[i % 3], 20 + (i % 5 if thorough else 0), r.next()))
+    if only is not None:
+        cfgs = [only]
     # one probe outside valid_call: a callsign with an embedded space (known finding callsign-embedded-space)
     probe = ("AB CD", None, 5, False, False, "tone", 20, r.next())
     # fixed replay of the recorded finding no-acquisition-on-silent-audio (found by the thorough tier, seed 20260930)
     probe2 = ("9", "SEF0QWKB", 4, False, False, "silence", 20, 1)
-    allcfgs = cfgs + [probe, probe2]
-    expected = spec_lines(ctx, [(c[0], c[1], c[2], bytes(14)) for c in cfgs])
+    allcfgs = cfgs + ([probe, probe2] if only is None else [])
+    expected = spec_lines(ctx, [(c[0].replace(" ", "A"), c[1], c[2], bytes(14)) for c in cfgs])
     results = []
     with cf.ThreadPoolExecutor(max_workers=14) as ex:
         futs = [ex.submit(run_pipeline, ctx, mod, demod, c, i) for i, c in enumerate(allcfgs)]
@@ -236,8 +238,8 @@ def process_level(ctx, mod, demod):
     ndecoded = 0
     for i, (cfg, res) in enumerate(results):
         src, dst, can, invert, lead, kind, seconds, seed = cfg
-        is_probe = i == len(cfgs)
-        is_probe2 = i == len(cfgs) + 1
+        is_probe = " " in src
+        is_probe2 = only is None and i == len(cfgs) + 1
         ctx.case(("pipeline", src, dst, can, invert, lead, kind), nontrivial=res.get("out_len", 0) > 0)
         ctx.count(f"pipeline:{kind}:{'inv' if invert else 'norm'}:{'lead' if lead else 'nolead'}")
         replay = {"command": res.get("cmd"), "src": src, "dst": dst, "can": can, "invert": invert, "leading_noise": lead, "audio": kind, "seconds": seconds,
@@ -319,6 +321,19 @@ def run(ctx):
         app, mod, demod = fa.result().get("c07_app"), fm.result(), fd.result()
         fp.result()
     ctx.log(f"builds {time.time() - t0:.1f}s")
+    if ctx.replay_in:
+        import json
+        rp = json.load(open(ctx.replay_in)).get("replay", {})
+        if "case" in rp and app:
+            lines = C07.run_differential(ctx, app, "replay", [rp["case"]], [rp.get("model_case", rp["case"])])
+            ctx.sample({"replayed_case": rp["case"][:300], "implementation": lines[0][-300:] if lines else None})
+        elif "audio_seed" in rp and mod and demod:
+            process_level(ctx, mod, demod, only=(rp["src"], rp["dst"], rp["can"], rp["invert"], rp["leading_noise"], rp["audio"], rp["seconds"], rp["audio_seed"]))
+        elif "valgrind" in rp:
+            pass        # the end-of-input probe has just been re-run above
+        else:
+            ctx.tie_broken("replay", "the replay file holds no concrete input")
+        return
     if app and getattr(ctx, "spec", None):
         handler_level(ctx, app)
         ctx.log(f"handler level done {time.time() - t0:.1f}s")
